@@ -105,8 +105,10 @@ func init() {
 		"EciesAeadHkdfPublicKey", "EciesAeadHkdfPrivateKey", "HpkePublicKey", "HpkePrivateKey",
 		"AesCtrHmacStreamingKey", "AesGcmHkdfStreamingKey", "JwtHmacKey", "JwtEcdsaPublicKey", "JwtEcdsaPrivateKey",
 		"JwtRsaSsaPkcs1PublicKey", "JwtRsaSsaPssPublicKey", "MlDsaPublicKey", "SlhDsaPublicKey", "SlhDsaPrivateKey",
-		"JwtRsaSsaPkcs1PrivateKey", "JwtRsaSsaPssPrivateKey", "JwtMlDsaPublicKey"}
-	rest := []string{"PrfBasedDeriverKey", "JwtMlDsaPrivateKey", "MlDsaPrivateKey", "CompositeMlDsaPublicKey", "CompositeMlDsaPrivateKey"}
+		"JwtRsaSsaPkcs1PrivateKey", "JwtRsaSsaPssPrivateKey", "JwtMlDsaPublicKey",
+		// third round (the public key of the seed comes from the oracle op c14_mldsa_pub)
+		"MlDsaPrivateKey", "JwtMlDsaPrivateKey"}
+	rest := []string{"PrfBasedDeriverKey", "CompositeMlDsaPublicKey", "CompositeMlDsaPrivateKey"}
 	for _, n := range base {
 		modelled[tp+n] = true
 		base16[tp+n] = true
